@@ -1,7 +1,9 @@
 import Pxv.Driver.Body
+import Pxv.Driver.Domain
 open Pxv.Driver
 
 def main (args : List String) : IO UInt32 := do
   match args with
   | ["body"] => serve Pxv.Body.handle; return 0
+  | ["domain"] => serve Pxv.Domain.handle; return 0
   | _ => IO.eprintln "usage: pxmodel <model>"; return 2
